@@ -26,8 +26,8 @@ def _index(m):
     return feats
 
 
-def exact(shape, cards) -> bool:
-    m = R.build(shape, cards)
+def exact(shape, cards, m=None) -> bool:
+    m = R.build(shape, cards) if m is None else m
     feats = _index(m)
     from .common import result_twice
     res = result_twice(FMCoreFeatures(), m)
@@ -181,7 +181,14 @@ def batches(tier, seed):  # noqa: F811
     n = 3 if tier == 'quick' else 4
     total = len(R.shapes(n)) * (len(R.shapes(n)) - 1)
     step = total // 4 + 1
-    return _orig_batches(tier, seed) + [('batch_pairs', [n, lo, lo + step, seed + lo]) for lo in range(0, total, step)]
+    b = _orig_batches(tier, seed) + [('batch_pairs', [n, lo, lo + step, seed + lo]) for lo in range(0, total, step)]
+    if tier == 'quick':
+        b += [('batch_larger', ['random', seed * 3 + i, 40, 6, 16, 0]) for i in range(2)]
+        b += [('batch_larger', ['corpus', seed, 48, 0, 0, 150000, i, 2]) for i in range(2)]
+    else:
+        b += [('batch_larger', ['random', seed * 3 + i, 250, 6, 40, 0]) for i in range(8)]
+        b += [('batch_larger', ['corpus', seed, 100000, 0, 0, 10 ** 9, i, 16]) for i in range(16)]
+    return b
 
 
 def info(tier):
@@ -197,3 +204,16 @@ def info(tier):
 
 def batch_pairs(max_n, lo, hi, seed):
     return pair_batch(__name__, 'exact', max_n, lo, hi, seed, 'two-models-in-sequence')
+
+
+# -- larger inputs: random shapes beyond the exhaustive bound, shipped corpus --------------------------------
+from .larger import replay_model  # noqa: E402,F401
+
+
+def larger_check(shape, cards, m):
+    return [] if exact(shape, cards, m) else ['core features differ from the always-selected features of the tree (closed form), or a feature is returned twice']
+
+
+def batch_larger(kind, seed, count, lo_n, hi_n, max_bytes, part=0, parts=1):
+    from . import larger
+    return larger.batch_models(__name__, 'larger_check', 'core-larger', kind, seed, count, lo_n, hi_n, max_bytes, part, parts)
